@@ -168,15 +168,17 @@ class H5Group:
             for item in self:
                 if item.get_attr("entity_id") == id_or_name:
                     return True
-            return False
-        else:
-            return id_or_name in self.group
+        # not an id, or no entity with that id: it may be a name
+        return id_or_name in self.group
 
     def get_by_id_or_name(self, id_or_name):
         if util.is_uuid(id_or_name):
-            return self.get_by_id(id_or_name)
-        else:
-            return self.get_by_name(id_or_name)
+            try:
+                return self.get_by_id(id_or_name)
+            except KeyError:
+                # no entity with that id: a name may look like an id
+                pass
+        return self.get_by_name(id_or_name)
 
     def get_by_name(self, name):
         if self.group and name in self.group:
